@@ -190,6 +190,7 @@ class ManifestContext:
                                multi_period: models.MultiPeriodStream) -> None:
         start: datetime.timedelta = datetime.timedelta(0)
         for prd in multi_period.periods:
+            self.check_period_stream(prd)
             timing = DashTiming(
                 self.now, prd.stream.timing_reference, self.options)
             period = self.create_period(
@@ -202,7 +203,11 @@ class ManifestContext:
 
     def create_all_live_periods(self,
                                 multi_period: models.MultiPeriodStream) -> None:
+        for prd in multi_period.periods:
+            self.check_period_stream(prd)
         duration = multi_period.total_duration()
+        if duration.total_seconds() <= 0:
+            raise ValueError(f'Multi-period stream {multi_period.name} has no duration')
         timing_ref = StreamTimingReference(
             media_name=multi_period.name,
             media_duration=int(duration.total_seconds() * 1000),
@@ -242,6 +247,14 @@ class ManifestContext:
                 num_loops += 1
         if self.options.segmentTimeline:
             self.periods[-1].duration = None
+
+    @staticmethod
+    def check_period_stream(prd: models.Period) -> None:
+        if prd.stream is None:
+            raise ValueError(f'The stream of period {prd.pid} has been deleted')
+        if prd.stream.timing_reference is None:
+            raise ValueError(
+                f'The timing reference of stream {prd.stream.directory} has not been configured')
 
     def create_period(self,
                       stream: models.Stream,
